@@ -60,13 +60,12 @@ Theorem C09_bare_500 : forall s r methods, handled s r methods -> yields_bare_50
   final_message (Some s) r = Some bare_500.
 Proof. exact bare_500_table. Qed.
 Print Assumptions C09_bare_500.
-(* ---- Observe=0 to an observable resource (interfaces.ObservableResource._render_to_pipe), with its case split:
-   add_observation raising -> that exception rendered as usual; observation accepted (also when deregistered early) -> the
-   plain table, unless the observation gets established (then the first response is NOT final: C08 takes over);
-   observation DECLINED -> a returned message is final as usual, but every exception out of the handler (renderable
-   errors and 4.05 included) is replaced by the AttributeError of `finally: servobs._cancellation_callback()`: bare 5.00.
-   That last case contradicts "a raised renderable error is sent with its own code and diagnostic payload":
-   open finding C09:declined-observation:error-replaced-by-500 (witness: C09_declined_observation_refuted) *)
+(* ---- Observe=0 to an observable resource (interfaces.ObservableResource._render_to_pipe):
+   add_observation raising -> that exception rendered as usual; otherwise (observation accepted, deregistered early or
+   declined) -> the plain table, unless the observation gets established (accepted and successful first response: then the
+   first response is NOT final, C08 takes over).  (Since 195eca8 the finally block runs the cancellation callback only for
+   accepted observations; before, a declined observation turned every handler exception into a bare 5.00 — former finding
+   C09:declined-observation:error-replaced-by-500.) *)
 Theorem C09_plain_final_message : forall s r methods, plain_methods s r = Some methods ->
   final_message (Some s) r = plain_final methods r.
 Proof. exact plain_final_message. Qed.
@@ -76,11 +75,16 @@ Theorem C09_observable_final_message : forall s r methods mode,
   final_message (Some s) r =
     match mode with
     | ORaise e => final_of_exc e
-    | ODecline => match render methods r with Responded m => Some m | Raised _ => Some bare_500 end
     | _ => if establishes methods mode r then None else plain_final methods r
     end.
 Proof. exact observable_final_message. Qed.
 Print Assumptions C09_observable_final_message.
+(* a declined observation is answered exactly like a plain request — a raised renderable error with its own code and text *)
+Theorem C09_declined_observation_plain : forall s r methods,
+  find_resource s (r_path r) = Some (Observable methods ODecline) -> observing r = true ->
+  final_message (Some s) r = plain_final methods r.
+Proof. exact declined_observation_plain. Qed.
+Print Assumptions C09_declined_observation_plain.
 Theorem C09_observable_established : forall s r methods mode,
   find_resource s (r_path r) = Some (Observable methods mode) -> observing r = true -> establishes methods mode r = true ->
   exists m, render methods r = Responded m /\ is_successful (code_of_msg m) = true /\ mode = OAccept /\
@@ -91,13 +95,12 @@ Definition obs_site (mode : obs_mode) : site := [([1], Observable [GET; FETCH] m
 Definition obs_request (o : outcome) : request :=
   {| r_id := 0; r_remote := 0; r_token := [1]; r_mid := 7; r_con := true; r_code := GET; r_path := [1]; r_nr := None;
      r_obs := Some 0; r_slow := false; r_outcome := o |}.
-Theorem C09_declined_observation_refuted :
+Example C09_declined_observation_example :
   let r := obs_request (Raise_ (cre E_BadRequest (CText [100]))) in
   final_message (Some (obs_site OAccept)) r = Some (mk_msg 128 [100]) /\     (* accepted: the error's own code and text *)
-  final_message (Some (obs_site ODecline)) r = Some bare_500 /\              (* declined: replaced by a bare 5.00 *)
+  final_message (Some (obs_site ODecline)) r = Some (mk_msg 128 [100]) /\    (* declined: the same (was a bare 5.00 before 195eca8) *)
   finalising (Some (obs_site ODecline)) r.
 Proof. cbv zeta. split; [reflexivity|]. split; [reflexivity|]. cbn. reflexivity. Qed.
-Print Assumptions C09_declined_observation_refuted.
 
 (* the table is total for every finalising rendering: not a resource with its own render_to_pipe, not an observation being established *)
 Theorem C09_final_message_total : forall srv r, finalising srv r -> exists m, final_message srv r = Some m.
@@ -198,14 +201,13 @@ Example C09_failing_renderer_example :
   = ([([mk_wire garbage_request T_ACK 7 bare_500], [LogRenderFailed], 0); ([], [], 0)], (0, 0, 0, 0)).
 Proof. vm_compute. reflexivity. Qed.
 (* Observe=0 on an accepting observable resource with a successful handler: the first response is a non-final 2.05 with
-   Observe:0 and the request stays registered; on a declining one: the same response, final, without Observe (and the
-   AttributeError of the finally block is logged as discarded) *)
+   Observe:0 and the request stays registered; on a declining one: the same response, final, without Observe *)
 Example C09_observable_example :
   let r := obs_request (Return (VMsg {| m_code := None; m_payload := [104]; m_cf := None; m_nr := None; m_obs := None |})) in
   establishes [GET; FETCH] OAccept r = true /\
   map (fun o => (map (fun w => (w_code w, w_obs w)) (fst (fst o)), snd (fst o))) (fst (run_script (Some (obs_site OAccept)) 100 [Req r])) = [([(69, Some 0)], [])] /\
   snd (run_script (Some (obs_site OAccept)) 100 [Req r]) = (1, 0, 0, 0) /\
-  map (fun o => (map (fun w => (w_code w, w_obs w)) (fst (fst o)), snd (fst o))) (fst (run_script (Some (obs_site ODecline)) 100 [Req r])) = [([(69, None)], [LogDiscarded])] /\
+  map (fun o => (map (fun w => (w_code w, w_obs w)) (fst (fst o)), snd (fst o))) (fst (run_script (Some (obs_site ODecline)) 100 [Req r])) = [([(69, None)], [])] /\
   snd (run_script (Some (obs_site ODecline)) 100 [Req r]) = (0, 0, 0, 0).
 Proof. cbv zeta. repeat split; vm_compute; reflexivity. Qed.
 (* an unknown path asked with No-Response 8 (suppress 4.xx): only the empty ACK goes out *)
